@@ -98,6 +98,22 @@ let uinto toks =
                 "rc=0 into=1" ^ String.sub s 4 (String.length s - 4)))
   | _ -> failwith "uinto args"
 
+(* unew <caps> <bytes> : coap_new_uri + coap_clone_uri *)
+let unew toks =
+  match toks with
+  | [caps; b] ->
+      let caps = { ucap_dtls = b01 caps.[0]; ucap_tcp = b01 caps.[1]; ucap_tls = b01 caps.[2];
+                   ucap_ws = b01 caps.[3]; ucap_wss = b01 caps.[4] } in
+      (match uri_split caps false (bytes_of_tok b) with
+       | UOob -> "OOB"
+       | UOk (UErr _) -> "rc=-1"
+       | UOk (USplit p) ->
+           Printf.sprintf "rc=0 sch=%d host=%s port=%d path=%s query=%s clone=%s:%d/%s?%s"
+             (int_of_z p.up_scheme) (full_hex p.up_host) (int_of_z p.up_port) (full_hex p.up_path)
+             (full_hex p.up_query) (full_hex p.up_host) (int_of_z p.up_port) (full_hex p.up_path)
+             (full_hex p.up_query))
+  | _ -> failwith "unew args"
+
 (* ugetproxy <bytes> : coap_get_uri_path with a Proxy-Uri option = path of coap_split_proxy_uri *)
 let ugetproxy toks =
   match toks with
@@ -145,5 +161,5 @@ let spec_norm toks = show_optl (uri_norm (List.map bytes_of_tok toks))
 
 let () =
   register "upath" upath; register "uquery" uquery; register "upol" upol; register "uqol" uqol;
-  register "ugetp" (uget false); register "ugetq" (uget true); register "uspl" uspl; register "uinto" uinto; register "ugetproxy" ugetproxy;
+  register "ugetp" (uget false); register "ugetq" (uget true); register "uspl" uspl; register "uinto" uinto; register "unew" unew; register "ugetproxy" ugetproxy;
   register "spec_path" spec_path; register "spec_query" spec_query; register "spec_norm" spec_norm; register "spec_pq" spec_pq
